@@ -1040,11 +1040,12 @@ class ReducedDensityMatrixPropagator(MatrixData, Saveable):
         else:
             HH = self.Hamiltonian.data
             
+        sbi = self.RelaxationTensor.SystemBathInteraction
         if self.RelaxationTensor._has_cutoff_time:
             cutoff_indx = \
             self.TimeAxis.nearest(self.RelaxationTensor.cutoff_time)
         else:
-            cutoff_indx = self.TimeAxis.length
+            cutoff_indx = sbi.TimeAxis.length
 
         Km = self.RelaxationTensor.Km
         Kd = numpy.zeros(Km.shape, dtype=numpy.float64)
@@ -1055,21 +1056,38 @@ class ReducedDensityMatrixPropagator(MatrixData, Saveable):
         indx = 1
         indxR = 1
 
-        for ii in range(1, self.Nt): 
+        #
+        # As in the tensor form, the operators are defined on the time
+        # axis of the system-bath interaction, which can be finer than 
+        # the propagation time axis. The index into the operators has to
+        # advance by the corresponding stride.
+        #
+        sysstep = sbi.TimeAxis.step
+        Nref_max = round(self.TimeAxis.step/sysstep)
+        Nref_req = self.Nref
+        
+        if Nref_max % Nref_req == 0:
+            stride = Nref_max//Nref_req
+        else:
+            raise Exception("Incompatible number of refinement steps")
+            
+        dt = sysstep*stride
 
-            Lm = self.RelaxationTensor.Lm[indxR,:,:,:]
-            Ld = self.RelaxationTensor.Ld[indxR,:,:,:]
+        for ii in range(1, self.Nt): 
        
             for jj in range(0, self.Nref):
+
+                Lm = self.RelaxationTensor.Lm[indxR,:,:,:]
+                Ld = self.RelaxationTensor.Ld[indxR,:,:,:]
                 
                 for ll in range(1, L+1):
                     
-                    rhoY =  - _COM(HH, ll, self.dt,rho1) 
+                    rhoY =  - _COM(HH, ll, dt, rho1) 
                     
                     #(1j*self.dt/ll)*(numpy.dot(HH,rho1) 
                     #                         - numpy.dot(rho1,HH))
                     
-                    _OTI(rhoY, Km, Kd, Lm, Ld, ll, self.dt, rho1)
+                    _OTI(rhoY, Km, Kd, Lm, Ld, ll, dt, rho1)
                     
                     # for mm in range(Nm):
                         
@@ -1084,11 +1102,12 @@ class ReducedDensityMatrixPropagator(MatrixData, Saveable):
                     
                     rho2 = rho2 + rho1
                 rho1 = rho2    
+
+                if indxR + stride <= cutoff_indx-1:                      
+                    indxR += stride
                 
             pr.data[indx,:,:] = rho2 
             indx += 1             
-            if indxR < cutoff_indx-1:                      
-                indxR += 1             
 
         if self.Hamiltonian.has_rwa:
             pr.is_in_rwa = True
